@@ -335,6 +335,11 @@ func bodyLen(t *rapid.T, label string) int {
 // WriteMayFail: inputs the writer is free to refuse (the property is then vacuous) but, if it
 // writes them, the file must read back unchanged: header names or values with octets >= 0x80
 // (the reader insists on ASCII header fields).
+// AllowCollide lets the generators give one exchange of a bundle colliding header keys
+// (ExSpec.Collide). Off by default: only the checks that know how to judge a refused or
+// folded write (C03, C04) switch it on.
+var AllowCollide bool
+
 // HasCollide: some exchange's header map holds one field under two spellings (ExSpec.Collide).
 func (s *Spec) HasCollide() bool {
 	for i := range s.Exchanges {
@@ -468,7 +473,7 @@ func finish(t *rapid.T, s *Spec, dupNoVariants bool) *Spec {
 	if len(s.Exchanges) > 1 {
 		s.Exchanges = rapid.Permutation(s.Exchanges).Draw(t, "order")
 	}
-	if len(s.Exchanges) > 0 && rapid.IntRange(0, 39).Draw(t, "collide") == 17 {
+	if AllowCollide && len(s.Exchanges) > 0 && rapid.IntRange(0, 39).Draw(t, "collide") == 17 {
 		// one exchange of the bundle gets one header field under two spellings (see ExSpec.Collide)
 		s.Exchanges[rapid.IntRange(0, len(s.Exchanges)-1).Draw(t, "collide-at")].Collide = rapid.IntRange(1, 2).Draw(t, "collide-kind")
 	}
